@@ -8,7 +8,7 @@ import re
 import warnings
 from typing import Any, Callable, Dict, List, Optional
 
-from .model import CallRec, Injected, PoolM, ReqM, TaskM
+from .model import CallRec, Fatal, Injected, PoolM, ReqM, TaskM
 
 TICK_CAP = 3000
 
@@ -163,9 +163,10 @@ class World:
     # ------------------------------------------------------------------ injected faults
     FAULT_TYPES = (Injected, TypeError, ValueError, KeyError, RuntimeError)
 
-    def new_fault(self, tag: str, kind: int = 0) -> Exception:
+    def new_fault(self, tag: str, kind: int = 0, allow_base: bool = False) -> BaseException:
         """An exception object the harness injects; its type varies (user code fails with all sorts of exceptions)."""
-        cls = self.FAULT_TYPES[kind % len(self.FAULT_TYPES)]
+        types = self.FAULT_TYPES + ((Fatal,) if allow_base else ())
+        cls = types[kind % len(types)]
         exc = cls(tag)
         self.faults.append(exc)
         return exc
@@ -421,7 +422,7 @@ class World:
                             tm.events.append("cancel@cleanup")
                     raise
             if end[0] == "raise":
-                exc = self.new_fault(f"worker r{rm.rid}[{rec.idx}]", wspec.get("fault_kind", 0))
+                exc = self.new_fault(f"worker r{rm.rid}[{rec.idx}]", wspec.get("fault_kind", 0), allow_base=True)
                 tm.exc = exc
                 tm.faults.append(exc)
                 pm.injected.append(exc)
@@ -431,7 +432,7 @@ class World:
         except asyncio.CancelledError:
             how = "cancel"
             raise
-        except Exception as e:
+        except BaseException as e:
             if self.is_fault(e):
                 how = "raise"
             raise
@@ -494,7 +495,7 @@ class World:
             world.observe(kind + "cb-")
 
         def injected(tm: Optional[TaskM]) -> Exception:
-            exc = world.new_fault(f"{kind}cb", spec.get("fault_kind", 0))
+            exc = world.new_fault(f"{kind}cb", spec.get("fault_kind", 0), allow_base=True)
             if tm is not None:
                 tm.pm.injected.append(exc)
                 tm.pm.fault_seen = True
